@@ -102,7 +102,7 @@ func decodeInt32(buf nextByte) (ret int32, bytesRead uint64, err error) {
 			// fixme: can be optimized.
 			if bytesRead > maxVarintLen32 {
 				return 0, 0, errOverflow32
-			} else if unused := b & 0b00110000; bytesRead == maxVarintLen32 && ret < 0 && unused != 0b00110000 {
+			} else if unused := b & 0b01110000; bytesRead == maxVarintLen32 && ret < 0 && unused != 0b01110000 {
 				return 0, 0, errOverflow32
 			} else if bytesRead == maxVarintLen32 && ret >= 0 && unused != 0x00 {
 				return 0, 0, errOverflow32
